@@ -139,9 +139,8 @@ Definition cmd_server_join (k : skey) (m : imsg) : M unit :=
       | Some tk =>
           let lc := chan_to_lower channelname in
           let created := negb (bool_decide (is_Some (sv_channels sv !! lc))) in
-          whenM created (modS (set_channels (<[lc := Chan channelname "" None "" ∅ ∅ "" []]>))) ;;;
-          updChan lc (cc_nicks (<[nick := (created, false)]>)) ;;;
-          updSess tk (ss_channels (fun cs => {[ lc ]} ∪ cs)) ;;;
+          let c0 := match sv_channels sv !! lc with Some c => c | None => new_chan channelname ∅ end in
+          add_member lc c0 nick tk created ;;;
           DO sv <- getS IN DO t <- sessM tk IN
           DO common <- liftR (rc_common sv t) IN
           emit common (usrmsg (services_prefix pfx) "JOIN" [channelname])
@@ -200,26 +199,16 @@ Definition cmd_server_svsjoin (k : skey) (m : imsg) : M unit :=
       else
         let lc := chan_to_lower channelname in
         let created := negb (bool_decide (is_Some (sv_channels sv !! lc))) in
-        whenM created (modS (set_channels (<[lc := Chan channelname "" None "" ∅ ∅ "" []]>))) ;;;
-        DO c <- chanM lc IN
-        match c with
-        | None => panicM "nil pointer: channel vanished"
-        | Some c =>
-            if bool_decide (is_Some (c_nicks c !! nick)) then retM tt
-            else
-              updChan lc (cc_nicks (<[nick := (created, false)]>)) ;;;
-              updSess tk (ss_channels (fun cs => {[ lc ]} ∪ cs)) ;;;
-              DO sv <- getS IN DO t <- sessM tk IN
-              match sv_channels sv !! lc with
-              | None => panicM "nil pointer: channel vanished"
-              | Some c =>
-                  DO rc <- liftR (rc_channel sv c) IN
-                  emit rc (usrmsg (s_prefix t) "JOIN" [channelname]) ;;;
-                  emit (rc_services sv) (srvmsg sv "SJOIN" ["1"; channelname; (if created then "@" else EmptyString) ++ s_nick t]) ;;;
-                  cmd_topic tk (IMsg None "TOPIC" [channelname]) ;;;
-                  cmd_names tk (IMsg None "NAMES" [channelname])
-              end
-        end
+        let c0 := match sv_channels sv !! lc with Some c => c | None => new_chan channelname ∅ end in
+        if bool_decide (is_Some (c_nicks c0 !! nick)) then retM tt
+        else
+          add_member lc c0 nick tk created ;;;
+          DO sv <- getS IN DO t <- sessM tk IN
+          DO rc <- liftR (rc_channel sv (cc_nicks (<[nick := (created, false)]>) c0)) IN
+          emit rc (usrmsg (s_prefix t) "JOIN" [channelname]) ;;;
+          emit (rc_services sv) (srvmsg sv "SJOIN" ["1"; channelname; (if created then "@" else EmptyString) ++ s_nick t]) ;;;
+          cmd_topic tk (IMsg None "TOPIC" [channelname]) ;;;
+          cmd_names tk (IMsg None "NAMES" [channelname])
   end.
 
 Definition cmd_server_svspart (k : skey) (m : imsg) : M unit :=
